@@ -3,7 +3,8 @@ from vlib import *
 import iongen
 import binlib
 
-THEOREMS = []
+import c12text
+THEOREMS = ["C04_declared_length", "C04_reachable_wf"]
 LEVEL = "other"
 EXPLANATION = ("K3: the binary Writer model (Bin/BinWriter.v) against the real Writer on value forests; oracle: the "
                "real Writer's bytes are decoded by the extracted specification decoder SpecBin.sdecode (written from "
@@ -32,6 +33,8 @@ def run(ctx):
         else:
             n_ok += 1
     ctx.count("C04-binary-oracle", len(lines), [], sample={"calls": lines[3][:200], "decoded": dec[3]}, agree=n_ok)
+    # text writers: finite tables (quoting, escapes) exhaustively + forests
+    c12text.run(ctx, ("finite", "forests"))
 
 
 def classify_case(line, expected, decoded):
